@@ -241,6 +241,10 @@ func ruleOpts(c *Ctx) {
 					continue
 				}
 			}
+			if why := b.optsStoredOnSuccessEdge(fn, cs, recv); why != "" {
+				l.add("R-OPTS", "v5", key, b.posOf(cs), Discharged, why, true)
+				continue
+			}
 			fresh := a.freshValue(recv)
 			if phi, isPhi := recv.(*ssa.Phi); isPhi && !fresh {
 				// phi(document node that is already parsed, scratch copy): the callee is applied
@@ -620,4 +624,59 @@ func ruleIndent(c *Ctx) {
 			add(key, indent, false, "", "the error of Indent is dropped ("+why+"): when the patched document nests deeper than the scanner accepts, Indent fails after writing nothing and ApplyIndent returns an empty text with a nil error")
 		}
 	}
+}
+
+
+// optsStoredOnSuccessEdge: the block entered when the callee answered true stores
+// recv.doc.opts = options before anything else can happen to the node (straight-line code from
+// the edge to the store). Whatever node recv is, it leaves this function with its options set.
+func (b *Body) optsStoredOnSuccessEdge(fn *ssa.Function, cs ssa.CallInstruction, recv ssa.Value) string {
+	v := cs.Value()
+	if v == nil || v.Referrers() == nil {
+		return ""
+	}
+	for _, r := range *v.Referrers() {
+		var iff *ssa.If
+		neg := false
+		switch x := r.(type) {
+		case *ssa.If:
+			iff = x
+		case *ssa.UnOp:
+			if x.Op == token.NOT {
+				for _, r2 := range *x.Referrers() {
+					if i2, ok := r2.(*ssa.If); ok {
+						iff, neg = i2, true
+					}
+				}
+			}
+		}
+		if iff == nil || iff.Block() != cs.Block() {
+			continue
+		}
+		succ := 0
+		if neg {
+			succ = 1
+		}
+		bb := iff.Block().Succs[succ]
+		for steps := 0; steps < 4 && len(bb.Preds) == 1; steps++ {
+			for _, j := range bb.Instrs {
+				s2, ok := j.(*ssa.Store)
+				if !ok {
+					continue
+				}
+				f2, ok := s2.Addr.(*ssa.FieldAddr)
+				if !ok || fieldOfAddr(f2).Field != "opts" {
+					continue
+				}
+				if base, fr, ok := fieldLoad(f2.X); ok && fr.Field == "doc" && base == recv && optionsOrigin(s2.Val) != "" {
+					return "the edge on which the callee answered true runs straight into " + roleOf(recv) + ".doc.opts = options at " + b.posOf(s2)
+				}
+			}
+			if len(bb.Succs) != 1 {
+				break
+			}
+			bb = bb.Succs[0]
+		}
+	}
+	return ""
 }
